@@ -110,6 +110,20 @@ def encode_prepared(m) -> bytes:
     return out
 
 
+def encode_model(m) -> tuple[bytes, dict]:
+    """Encode a batch from explicit header fields (base offset / timestamps / last offset delta as
+    given) and records, computing length and CRC.  Allows zero records (what log compaction leaves)."""
+    post = (
+        fixed("int16", m["attributes"]) + fixed("int32", m["last_offset_delta"])
+        + fixed("int64", m["base_timestamp"]) + fixed("int64", m["max_timestamp"])
+        + fixed("int64", m["producer_id"]) + fixed("int16", m["producer_epoch"])
+        + fixed("int32", m["base_sequence"]) + fixed("int32", len(m["records"]))
+        + b"".join(encode_record(r, m["base_timestamp"], m["base_offset"]) for r in m["records"])
+    )
+    full = dict(m, magic=2, crc=crc32c(post), batch_length=9 + len(post))
+    return encode_prepared(full), full
+
+
 def _svarint(src: Src) -> int:
     return unzigzag(src.uvarint(5))
 
